@@ -191,4 +191,22 @@ func init() {
 		Old:   "	b, err := json.Marshal(v)\n	if err != nil {\n		return \"\", err\n	}\n	return template.HTML(b), nil",
 		New:   "	var sb strings.Builder\n	enc := json.NewEncoder(&sb)\n	enc.SetEscapeHTML(false)\n	if err := enc.Encode(v); err != nil {\n		return \"\", err\n	}\n	return template.HTML(strings.TrimSpace(sb.String())), nil",
 		Edits: []Edit{{"helpers/encoders/json.go", "	\"html/template\"\n", "	\"html/template\"\n	\"strings\"\n"}}, Expect: "R3"})
+	// ---- C19 ----
+	addMutant(Mutant{Name: "next-lteq", Prop: "C19", File: "helpers/iterators/range.go",
+		Old: "	if r.pos < r.end {", New: "	if r.pos <= r.end {", Expect: "R1"})
+	addMutant(Mutant{Name: "next-post-increment", Prop: "C19", File: "helpers/iterators/range.go",
+		Old: "		r.pos++\n		return r.pos", New: "		v := r.pos\n		r.pos++\n		return v", Expect: "R1"})
+	addMutant(Mutant{Name: "between-off-by-one", Prop: "C19", File: "helpers/iterators/between.go",
+		Old: "&ranger{pos: a, end: b - 1}", New: "&ranger{pos: a, end: b}", Expect: "R1"})
+	addMutant(Mutant{Name: "copies-drift-root-range", Prop: "C19", File: "iterators.go",
+		Old: "	return &ranger{pos: a - 1, end: b}", New: "	return &ranger{pos: a, end: b}", Expect: "R"})
+	addMutant(Mutant{Name: "groupby-floor-not-ceil", Prop: "C19", File: "helpers/iterators/group_by.go",
+		Old: "		if u.Len()%size != 0 {\n			groupSize++\n		}\n", New: "", Expect: "R4"})
+	addMutant(Mutant{Name: "groupby-drops-clamp", Prop: "C19", File: "helpers/iterators/group_by.go",
+		Old: "			if e > u.Len() {\n				e = u.Len()\n			}\n", New: "", Expect: "R4"})
+	addMutant(Mutant{Name: "revert-len-kind-guard", Prop: "C19", File: "helpers/meta/len.go",
+		Old: "	switch rv.Kind() {\n	case reflect.Array, reflect.Chan, reflect.Map, reflect.Slice, reflect.String:\n		return rv.Len()\n	}\n	// nothing else has a length (this includes a nil pointer)\n	return 0",
+		New: "	return rv.Len()", Expect: "R5"})
+	addMutant(Mutant{Name: "revert-groupby-array-copy", Prop: "C19", File: "helpers/iterators/group_by.go",
+		Old: "		if u.Kind() == reflect.Array && !u.CanAddr() {\n			// an array held by value cannot be sliced; slice a copy\n			a := reflect.New(u.Type()).Elem()\n			a.Set(u)\n			u = a\n		}\n\n", New: "", Expect: "R5"})
 }
